@@ -3,9 +3,9 @@ import ElkVerif.Model.Bytecode.Verify
 # Abort-check placement (C33)
 
 On top of the C29 decoder and abstract machine: the control-flow graph of a program over nodes
-`(function, pc)`
+`(function, machine state)`
 
- * intra-procedural edges: every `(s.pc, s'.pc)` for a state `s` of the function's C29 certificate
+ * intra-procedural edges: every `(s, s')` for a state `s` of the function's C29 certificate
    and a successor `s'` of `exec` (so every step of the abstract machine is an edge: `edge_of_step`);
    loop back-edges, handler entries, `finally` detours and generator resumption are among them;
  * tail-call edges: `CALL_METHOD_BC*` with the tail flag to its callee's entry, `CALL_METHOD_TCO*`
@@ -21,7 +21,8 @@ length of every path that passes no check node. The ranking is computed by an un
 -/
 namespace Elk.Bytecode.Abort
 
-abbrev Node := Nat × Nat      -- (function index, pc)
+abbrev Node := Nat × St       -- (function index, abstract machine state): path-sensitive, so that the
+                              -- flag-discriminated paths through a shared `finally` epilogue stay apart
 
 structure Graph where
   edges : List (Node × Node)
@@ -49,7 +50,7 @@ def isCheckPc (f : Func) (pc : Nat) : Bool :=
 def intraEdges (P : Prog) (k : Nat) (f : Func) (cfg : Cfg) (cert : List St) : List (Node × Node) :=
   cert.flatMap fun s =>
     match exec P f cfg s with
-    | .ok l => l.map fun s' => ((k, s.pc), (k, s'.pc))
+    | .ok l => l.map fun s' => ((k, s), (k, s'))
     | .error _ => []
 
 /-- last segment of a function name (`G1::m0` ↦ `m0`, `Foo.:bar` ↦ `bar`) -/
@@ -70,11 +71,14 @@ def tailTargets (P : Prog) (names : Array String) (f : Func) (callNames : Array 
       (List.range P.size).filter fun j => methodName (names[j]?.getD "") == nm
   | _ => []
 
-def tailEdges (P : Prog) (names : Array String) (k : Nat) (f : Func) (callNames : Array String) (bs : List Nat) :
+def tailEdges (P : Prog) (names : Array String) (k : Nat) (f : Func) (cfg : Cfg) (callNames : Array String) (cert : List St) :
     List (Node × Node) :=
-  bs.flatMap fun pc =>
-    match decodeAt f.code pc with
-    | .ok i => (tailTargets P names f callNames i).map fun j => ((k, pc), (j, 0))
+  cert.flatMap fun s =>
+    match decodeAt f.code s.pc with
+    | .ok i => (tailTargets P names f callNames i).filterMap fun j =>
+        match P[j]? with
+        | some g => some ((k, s), (j, St.entry g cfg))
+        | none => none
     | .error _ => []
 
 /-- **Trusted check**: `rank` strictly decreases along every edge that leaves a non-check node. -/
@@ -141,9 +145,9 @@ def checkProgram (P : Prog) (names : Array String) (callNames : Array (Array Str
         | none => acc
         | some f =>
           match verifyFuncD P f true, sweep f.code with
-          | .ok v, .ok bs =>
-            let cs := bs.foldl (fun h pc => if isCheckPc f pc then h.insert (k, pc) else h) acc.2.1
-            (intraEdges P k f cfg v.cert ++ tailEdges P names k f (callNames[k]?.getD #[]) bs ++ acc.1, cs, acc.2.2)
+          | .ok v, .ok _ =>
+            let cs := v.cert.foldl (fun h s => if isCheckPc f s.pc then h.insert (k, s) else h) acc.2.1
+            (intraEdges P k f cfg v.cert ++ tailEdges P names k f cfg (callNames[k]?.getD #[]) v.cert ++ acc.1, cs, acc.2.2)
           | _, _ => (acc.1, acc.2.1, k :: acc.2.2))
       ([], {}, [])
   let g : Graph := ⟨edges, checks⟩
